@@ -338,10 +338,10 @@ StepC(op, dst, x, a, cb) == [op |-> op, dst |-> dst, x |-> x, a |-> a, b |-> NoA
 
 \* operations that never change an existing cell (they may allocate a fresh one)
 ReadOnlyOps == {"bind", "get", "slice", "in", "len", "count", "index", "copy", "keys", "values", "items", "mget",
-                "attr", "sorted", "reversed", "plus", "union", "intersection", "difference", "map", "filter", "iter",
+                "attr", "sorted", "sortedby", "reversed", "plus", "union", "intersection", "difference", "map", "filter", "iter",
                 "mklist", "mkmap", "mkset"}
 \* operations whose container result is a fresh cell sharing nothing with the operand's cell
-FreshOps == {"slice", "copy", "keys", "values", "items", "sorted", "reversed", "plus", "union", "intersection",
+FreshOps == {"slice", "copy", "keys", "values", "items", "sorted", "sortedby", "reversed", "plus", "union", "intersection",
              "difference", "map", "filter", "iter", "mklist", "mkmap", "mkset"}
 \* operations that return the receiver itself
 SelfOps == {"append", "insert", "remove", "extend", "reverse", "sort", "clear", "update", "sadd"}
@@ -366,6 +366,8 @@ Eval(st, h, env) ==
     [] op = "delete" -> DelItem(x, a, h)
     [] op = "plus" -> Plus(x, a, h)
     [] op = "sorted" -> Sorted(x, h)
+    \* sorted(x, less) with less = func(a, b) { return a < b }: for a list the same fresh, stably ascending list
+    [] op = "sortedby" -> IF x.t = "list" THEN Sorted(x, h) ELSE Unk(h)
     [] op = "reversed" -> Reversed(x, h)
     [] op = "iter" -> Iterate(x, h)
     [] op = "attr" -> IF x.t = "map" THEN (IF st.keys[1] \in DOMAIN MapOf(x, h) THEN Ok(MapOf(x, h)[st.keys[1]], h) ELSE Err("type error", h))
